@@ -376,7 +376,38 @@ class TDOsc(Problem):
         return abs(k) * float(np.max(np.abs(self.w))) * (1.0 + max(abs(self.a), abs(self.b)))
 
 
+class Ballistic(Problem):
+    """q' = k p, p' = -k g: separable, the kick slope is a constant (a program may set such entries of its output buffer once)."""
+    separable = True
+    has_exact = False
+
+    def __init__(self, desc):
+        super().__init__(desc)
+        self.m = self.n // 2
+        self.g = self.arr(self.params["g"])
+
+    def f(self, t, y, k=1.0, **kw):
+        y = np.asarray(y)
+        m = self.m
+        out = np.empty_like(y)
+        out[:m] = k * y[m:]
+        out[m:] = -k * self.g.astype(y.dtype)
+        return out
+
+    def jac(self, t, y, k=1.0, **kw):
+        y = np.asarray(y)
+        m = self.m
+        J = np.zeros((2 * m, 2 * m), dtype=y.dtype)
+        for i in range(m):
+            J[i, m + i] = k
+        return J
+
+    def lipschitz(self, k=1.0):
+        return abs(k)
+
+
 FAMILIES = {
+    "ballistic": Ballistic,
     "tdosc": TDOsc,
     "linear": Linear,
     "osc": Oscillators,
@@ -432,6 +463,11 @@ def gen_problem(rng, family=None, dtype="float64", want=None):
         desc["shape"] = [2 * m]
         desc["params"] = {"w": [_r(rng, 0.7, 3.0) for _ in range(m)]}
         desc["y0"] = [_r(rng, 0.4, 1.5) * rng.choice([-1, 1]) for _ in range(2 * m)]
+    elif family == "ballistic":
+        m = rng.choice([1, 2])
+        desc["shape"] = [2 * m]
+        desc["params"] = {"g": [_r(rng, 0.5, 9.81) for _ in range(m)]}
+        desc["y0"] = [_r(rng, -1.0, 1.0) for _ in range(2 * m)]
     elif family == "tdosc":
         m = rng.choice([1, 1, 2])
         desc["shape"] = [2 * m]
